@@ -80,6 +80,7 @@ func c08One(c *engine.Case, b []byte) {
 	}
 	c.NonTrivial()
 	c.Outcome("accepted/" + class)
+	observeFmt(&p) // a forwarder logs the frame before passing it on
 	first := deepPrint(p)
 	out, err := p.MarshalBinary()
 	if err != nil {
